@@ -427,6 +427,12 @@ fn validate_and_transcode_texture_for_entry(
             // primary(dest_format, "unknown color format"),
         )))?;
 
+        if src_data.data.len() % src_cformat.bytes_per_pixel() as usize != 0 {
+            return Err(emitter.emit(error!(
+                message("cannot transcode image '{entry_path}': bad data length ({} bytes)", src_data.data.len()),
+                note("the image data comes from '{}'", loaded_source_path.display()),
+            )));
+        }
         let data_argb = src_cformat.transcode_to_argb_8888(&src_data.data);
         dest_cformat.transcode_from_argb_8888(&data_argb)
     };
